@@ -533,6 +533,9 @@ class World:
         tid = pid if is_tid else None
         if tail == "":
             return "dir", p, tail, tid
+        if getattr(p, "halfgone", False):
+            # exiting task (psutil issue #2418): the /proc/<pid> entry is still there, nothing inside it is
+            raise oserr(errno.ENOENT, path)
         if tail in self.PROC_FILES:
             return "file", p, tail, tid
         if tail in ("exe", "cwd", "root"):
@@ -565,6 +568,8 @@ class World:
         kind, p, tail, tid = self.proc_kind(path)
         if kind != "dir":
             raise oserr(errno.ENOTDIR, path)
+        if tail == "" and getattr(p, "halfgone", False):
+            return []
         if tail == "":
             return ["task", "fd", "fdinfo", "environ", "status", "stat", "statm", "cmdline",
                     "smaps", "smaps_rollup", "io", "exe", "cwd", "root", "comm", "limits"]
